@@ -125,8 +125,10 @@ U("logical_not", "logic", "any0", np.logical_not, "exact", [(("i4",), U_FULL), (
 for _n, _f in (("bitwise_and", np.bitwise_and), ("bitwise_or", np.bitwise_or), ("bitwise_xor", np.bitwise_xor)):
     Bn(_n, "logic", ("ext", "ext"), _f, "exact", [(II, B_FULL), (("u1", "u1"), B_AA)])
 U("invert", "logic", "ext", np.invert, "exact", [(("i4",), U_FULL), (("u1",), U_A)], w="promote")
-Bn("left_shift", "logic", ("shl", "shift"), np.left_shift, "exact", [(II, B_FULL), (("i8", "i4"), B_AA)], sf="view::left_shift_t<>{}", w="left")
-Bn("right_shift", "logic", ("any", "shift"), np.right_shift, "exact", [(II, B_FULL), (("i8", "i4"), B_AA)], sf="view::right_shift_t<>{}", w="left")
+# shifts: type and signedness come from the (promoted) LEFT operand only - mixed signedness / width pairs included
+_SHIFT_MIX = [(("i8", "i4"), B_AA), (("i4", "u4"), "F_AA|F_AS|F_SA"), (("i8", "u8"), B_AA), (("i2", "u4"), B_AA), (("i4", "i8"), B_AA), (("u4", "i4"), B_AA)]
+Bn("left_shift", "logic", ("shl", "shift"), np.left_shift, "exact", [(II, B_FULL)] + _SHIFT_MIX, sf="view::left_shift_t<>{}", w="left")
+Bn("right_shift", "logic", ("any", "shift"), np.right_shift, "exact", [(II, B_FULL)] + _SHIFT_MIX, sf="view::right_shift_t<>{}", w="left")
 # ---- max/min family, two-argument math
 Bn("maximum", "minmax", ("ext", "ext"), np.maximum, "exact", [(II, B_FULL), (FF, B_AA)], sf="view::maximum_t<>{}")
 Bn("minimum", "minmax", ("ext", "ext"), np.minimum, "exact", [(II, B_FULL), (FF, B_AA)], sf="view::minimum_t<>{}")
